@@ -106,7 +106,7 @@ CHECKS = {
               "normal form [glencoe_norm m] (children sorted by name, mandatory-beside-group relations first, requires spelled "
               "implies): same names, same constraint names, constraints equal under every assignment; the normal form is in the "
               "fragment and a fixed point, so further cycles change nothing. Feature-table lookups by name, the path bookkeeping "
-              "of grouped / non-grouped children and the reader's fuel are all covered by the proof. Source tie (DESIGN §10): the five functions of glencoe_writer.py are re-translated on every run (Gen/Src_glencoe.v); C08_source_writer proves the translated _to_json equal to glencoe_write for every model with distinct feature names (Python's stable sort against the model's sort: C08_source_writer_needs_distinct_names), so C08_source_roundtrip is the round trip of the translated writer. GlencoeReader (transform with the loaded document as input, _parse_tree, _parse_constraints, _parse_ast_constraint) is re-translated too (Gen/Src_glencoer.v): C08_source_reader proves that what the model reads the translated reader reads, C08_source_reader_error / _library_error that it fails where the model fails, with the library's exception where the model names it (this proof found the hand model stricter than the code on 'optional' entries that are not JSON booleans; the model now takes their truth value as the code does, and the suites generate such documents), and C08_source_cycle composes the translated writer and the translated reader into the normal form of the model."),
+              "of grouped / non-grouped children and the reader's fuel are all covered by the proof. Source tie (DESIGN §10): the five functions of glencoe_writer.py are re-translated on every run (Gen/Src_glencoe.v); C08_source_writer proves the translated _to_json equal to glencoe_write for every model, errors included (this proof found the model's sort not stable where Python's sorted is; the model's sort_by is now the stable one), so C08_source_roundtrip is the round trip of the translated writer. GlencoeReader (transform with the loaded document as input, _parse_tree, _parse_constraints, _parse_ast_constraint) is re-translated too (Gen/Src_glencoer.v): C08_source_reader proves that what the model reads the translated reader reads, C08_source_reader_error / _library_error that it fails where the model fails, with the library's exception where the model names it (this proof found the hand model stricter than the code on 'optional' entries that are not JSON booleans; the model now takes their truth value as the code does, and the suites generate such documents), and C08_source_cycle composes the translated writer and the translated reader into the normal form of the model."),
         note="Coq kernel; extraction/driver; harness; json module round trip; no axioms",
         technique="Coq proof (round-trip through a name-keyed table, sorting lemmas) + differential correspondence + source re-translated into Gallina on every run (tools/py2coq.py) and proved equal to the model",
         design="4 C08"),
